@@ -322,6 +322,53 @@ def keyword_arguments(tree, sig):
     return count[0]
 
 
+def inline_temps(tree):
+    """x = E; S     (E free of calls: names, attributes, subscripts, arithmetic, comparisons; x bound once and read once, in the simple statement S
+    that follows, outside any lambda / comprehension)   ->   S with E in place of x.    The inverse of `name an intermediate`."""
+    count = [0]
+    for fn in [n for n in ast.walk(tree) if isinstance(n, (ast.FunctionDef, ast.AsyncFunctionDef))]:
+        stores, loads = {}, {}
+        for n in ast.walk(fn):
+            if isinstance(n, ast.Name):
+                d = stores if isinstance(n.ctx, (ast.Store, ast.Del)) else loads
+                d[n.id] = d.get(n.id, 0) + 1
+        a = fn.args
+        params = {p.arg for p in a.posonlyargs + a.args + a.kwonlyargs} | ({a.vararg.arg} if a.vararg else set()) | ({a.kwarg.arg} if a.kwarg else set())
+        declared = {x for n in ast.walk(fn) if isinstance(n, (ast.Global, ast.Nonlocal)) for x in n.names}
+
+        def pure(e):
+            return not any(isinstance(y, (ast.Call, ast.Await, ast.Yield, ast.YieldFrom, ast.NamedExpr, ast.Lambda, ast.ListComp, ast.SetComp, ast.DictComp, ast.GeneratorExp,
+                                          ast.List, ast.Dict, ast.Set, ast.Starred, ast.JoinedStr)) for y in ast.walk(e))
+        for owner in ast.walk(fn):
+            for fld in ("body", "orelse", "finalbody"):
+                lst = getattr(owner, fld, None)
+                if not (isinstance(lst, list) and lst and isinstance(lst[0], ast.stmt)):
+                    continue
+                k = 0
+                while k + 1 < len(lst):
+                    st, nx = lst[k], lst[k + 1]
+                    if isinstance(st, ast.Assign) and len(st.targets) == 1 and isinstance(st.targets[0], ast.Name) and pure(st.value) and not isinstance(st.value, (ast.Constant, ast.Name)) \
+                            and isinstance(nx, (ast.Assign, ast.Expr, ast.Return, ast.AugAssign)) and getattr(nx, "value", None) is not None:
+                        x = st.targets[0].id
+                        if stores.get(x) == 1 and loads.get(x) == 1 and x not in params | declared:
+                            uses = [y for y in ast.walk(nx.value) if isinstance(y, ast.Name) and y.id == x]
+                            nested = {id(y) for z in ast.walk(nx.value) if isinstance(z, (ast.Lambda, ast.ListComp, ast.SetComp, ast.DictComp, ast.GeneratorExp)) for y in ast.walk(z)}
+                            tgt_names = {y.id for t in (nx.targets if isinstance(nx, ast.Assign) else ([nx.target] if isinstance(nx, ast.AugAssign) else [])) for y in ast.walk(t) if isinstance(y, ast.Name)}
+                            if len(uses) == 1 and id(uses[0]) not in nested and x not in tgt_names:
+                                val = st.value
+
+                                class R(ast.NodeTransformer):
+                                    def visit_Name(self, y):
+                                        return ast.copy_location(val, y) if y is uses[0] else y
+                                nx.value = R().visit(nx.value)
+                                del lst[k]
+                                count[0] += 1
+                                continue
+                    k += 1
+    ast.fix_missing_locations(tree)
+    return count[0]
+
+
 def transformed_copy(mode, suffix="_q"):
     """a scratch copy of the analysed tree (VERIF_REPO_ROOT or /repo) with one transformation applied everywhere; (path, number of rewrites)"""
     src_root = os.environ.get("VERIF_REPO_ROOT", "/repo")
@@ -344,7 +391,7 @@ def transformed_copy(mode, suffix="_q"):
                 total += k
             continue
         k = {"hoist-returns": hoist_returns, "name-arguments": name_arguments, "unelse": unelse, "else-after-exit": else_after_exit,
-             "flip-comparisons": flip_comparisons}.get(mode, lambda t: rename_locals(t, suffix))(tree)
+             "flip-comparisons": flip_comparisons, "inline-temps": inline_temps}.get(mode, lambda t: rename_locals(t, suffix))(tree)
         if k:
             open(path, "w").write(ast.unparse(tree) + "\n")
             total += k
@@ -360,7 +407,7 @@ def main():
     if "--only" in sys.argv:
         only = sys.argv[sys.argv.index("--only") + 1].split(",")
     mode = "rename-locals"
-    for m_ in ("hoist-returns", "name-arguments", "unelse", "else-after-exit", "flip-comparisons", "keyword-arguments"):
+    for m_ in ("hoist-returns", "name-arguments", "unelse", "else-after-exit", "flip-comparisons", "keyword-arguments", "inline-temps"):
         if "--" + m_ in sys.argv:
             mode = m_
     out = tempfile.mkdtemp(prefix="batchie-verif-alpha-out-", dir="/var/tmp")
